@@ -27,6 +27,7 @@ type ExecCase struct {
 	Store    string                       `json:"store"` // exact | sparse | superset | static
 	FailAt   int                          `json:"failAt"`
 	Flags    []string                     `json:"flags"`
+	flagSet  map[string]struct{}          // the caller's own feature-flag map, handed to every run of this case
 	Repeat   int                          `json:"repeat"`
 	PerStmt  bool                         `json:"perStmt"`
 	// other ops
@@ -341,10 +342,13 @@ type runOutput struct {
 func runOnce(prog parser.Program, c *ExecCase, vars map[string]string, bal interpreter.Balances, meta interpreter.AccountsMetadata) (out runOutput) {
 	store := &recStore{policy: c.Store, balances: bal, meta: meta, failAt: c.FailAt,
 		static: interpreter.StaticStore{Balances: bal, Meta: meta}}
-	flags := map[string]struct{}{}
-	for _, f := range c.Flags {
-		flags[f] = struct{}{}
+	if c.flagSet == nil {
+		c.flagSet = map[string]struct{}{}
+		for _, f := range c.Flags {
+			c.flagSet[f] = struct{}{}
+		}
 	}
+	flags := c.flagSet // one map for all the runs of the case: it is the caller's, a run only reads it
 	defer func() {
 		out.log = store.log
 		if r := recover(); r != nil {
@@ -440,6 +444,13 @@ func execCase(c *ExecCase) map[string]any {
 	}
 	if !reflect.DeepEqual(vars, copyVars(c.Vars)) && !(len(vars) == 0 && len(c.Vars) == 0) {
 		o.Mutated = append(o.Mutated, "vars")
+	}
+	wantFlags := map[string]struct{}{}
+	for _, f := range c.Flags {
+		wantFlags[f] = struct{}{}
+	}
+	if !reflect.DeepEqual(c.flagSet, wantFlags) {
+		o.Mutated = append(o.Mutated, "feature flags")
 	}
 	result["go"] = o
 
